@@ -77,7 +77,7 @@ func c19(c *Ctx) {
 	r.Floor("R1.single-source", 5)
 	r.Floor("R1.error-stops", 5)
 	r.Floor("R2.version-sets", 4)
-	r.Floor("R3.helper", 4)
+	r.Floor("R3.helper", 6)
 	r.Floor("R1.local-versions-immutable", 1)
 
 	N := negotiationHelper(p)
@@ -377,6 +377,9 @@ func c19(c *Ctx) {
 		r.Fail("R3.helper", name+" computation", p.Pos(N.Pos()), "the highest-common-version computation is not found in the helper")
 		return
 	}
+	// structure of the highest-common-version function: a running maximum over ALL common values
+	checkHighestCommon(c, "R3.helper", core.StaticCalleeFn(hcv))
+
 	// operands: local versions field and the loaded peer versions
 	a0 := core.Derives(hcv.Call.Args[0], func(v ssa.Value) bool { _, f, ok := core.LoadedField(v); return ok && f == "currentVersions" }, core.DeriveOpts{})
 	var loaded ssa.Value
@@ -445,4 +448,70 @@ func c19(c *Ctx) {
 		}
 	})
 	r.Check(nset >= 1, "R3.helper", name+" caches", p.Pos(N.Pos()), fmt.Sprintf("%d cache writes", nset), "the helper no longer caches")
+}
+
+// highestCommonFn finds the (local versions, peer versions) -> (uint8, error) function the
+// negotiation helper calls.
+func highestCommonFn(p *core.Prog) *ssa.Function {
+	N := negotiationHelper(p)
+	if N == nil {
+		return nil
+	}
+	var out *ssa.Function
+	core.Calls(N, func(ci ssa.CallInstruction) {
+		f := core.StaticCalleeFn(ci)
+		if f == nil || !core.InModule(f) {
+			return
+		}
+		rs := f.Signature.Results()
+		if rs.Len() == 2 && core.ErrResultIndex(f.Signature) == 1 && f.Signature.Params().Len() == 2 {
+			out = f
+		}
+	})
+	return out
+}
+
+// checkHighestCommon: the function must select the LARGEST common value (symmetric in its
+// arguments), considering every element.
+func checkHighestCommon(c *Ctx, rule string, hf *ssa.Function) {
+	p, r := c.P, c.R
+	if hf == nil {
+		r.Fail(rule, "highest-common-version function", "-", "anchor-unresolved")
+		return
+	}
+
+		hname := core.FuncName(hf)
+		// (1) some loop-carried value is replaced only under  element > carried
+		okMax := false
+		for _, b := range hf.Blocks {
+			for _, in := range b.Instrs {
+				ph, ok := in.(*ssa.Phi)
+				if !ok || !core.InLoop(b) {
+					continue
+				}
+				if bt, ok := ph.Type().Underlying().(*types.Basic); !ok || bt.Kind() != types.Uint8 {
+					continue
+				}
+				for _, b2 := range hf.Blocks {
+					for i := range b2.Succs {
+						for _, f := range core.EdgeFacts(b2, i) {
+							if core.CmpFact(f, func(op token.Token, x, y ssa.Value) bool {
+								return op == token.GTR && core.FlowsFrom(y, map[ssa.Value]bool{ph: true}) && !core.FlowsFrom(x, map[ssa.Value]bool{ph: true})
+							}) {
+								okMax = true
+							}
+						}
+					}
+				}
+			}
+		}
+		r.Check(okMax, rule, hname+" running-maximum", p.Pos(hf.Pos()), "the result is a running maximum: replaced only by a larger common value", "the common version returned is not selected as the LARGEST common value (e.g. the first match in list order): the two ends of a transfer, which call it with the lists swapped, can settle on different versions")
+		// (2) success is decided only after the loops: no success return from inside a loop
+		okAll := true
+		for _, ret := range core.Returns(hf) {
+			if core.InLoop(ret.Block()) && core.MayBeNilErr(ret.Results[len(ret.Results)-1], nil, ret.Block(), nil) {
+				okAll = false
+			}
+		}
+		r.Check(okAll, rule, hname+" considers-every-element", p.Pos(hf.Pos()), "no success exit from inside a loop: every element is considered", "the function can return a version before having looked at every element of the lists")
 }
